@@ -260,6 +260,7 @@ func monitor(c *fw.Case, tg target, in []byte) (err error, bad bool) {
 	if err != nil && err.Error() == "verifmon: dispatcher returned (nil, nil)" {
 		c.Failf("nil-nil/"+tg.name, "dispatcher returned a nil PDU and a nil error for %s", hx(in))
 	}
+	c.Sample(3, map[string]any{"target": tg.name, "input": hx(in), "outcome": outcome(err), "alloc_delta_octets": a1 - a0, "steps": stepsOf(c)})
 	if tg.typ != nil && err == nil {
 		// accepted: the mandatory part must be complete according to the strict reference parser
 		if len(in) < tg.typ.HeaderLen() || pdus.MandatoryLen(tg.typ, in) < 0 {
@@ -510,6 +511,13 @@ func init() {
 			},
 		},
 	})
+}
+
+func stepsOf(c *fw.Case) uint64 {
+	if c.W.Hooks == nil {
+		return 0
+	}
+	return c.W.Hooks.Steps()
 }
 
 func outcome(err error) string {
